@@ -227,7 +227,9 @@ p_crypto_hash_sha2_256_update (PHashSHA2_256	*ctx,
 	if (ctx->len_low < (puint32) len)
 		++ctx->len_high;
 
-	if (left && (puint32) len >= to_fill) {
+	ctx->len_high += (puint32) ((puint64) len >> 32);
+
+	if (left && len >= to_fill) {
 		memcpy (ctx->buf.buf + left, data, to_fill);
 		pp_crypto_hash_sha2_256_swap_bytes (ctx->buf.buf_w, 16);
 		pp_crypto_hash_sha2_256_process (ctx, ctx->buf.buf_w);
